@@ -765,3 +765,146 @@ theorem setDictionary_true_fresh (trim : Bytes → Bytes) (es : List (Bytes × N
         · exact ⟨(sep e he).1, (sep e he).2.1⟩
 
 end Cell2v.Codec
+
+namespace Cell2v.Codec
+
+/-! ## stream reassembly (`GetNextMessage`) does not depend on the fragmentation -/
+
+theorem readN_flatten : ∀ (fs : List Bytes) (n : Nat),
+    (readN fs n).1 = fs.flatten.take n ∧ (readN fs n).2.flatten = fs.flatten.drop n := by
+  intro fs
+  induction fs with
+  | nil => intro n; simp [readN]
+  | cons f fs ih =>
+    intro n
+    unfold readN
+    split
+    · rename_i h; subst h; simp
+    · split
+      · rename_i h0 hle
+        obtain ⟨i1, i2⟩ := ih (n - f.length)
+        simp only [List.flatten_cons]
+        rw [i1, i2, List.take_append, List.drop_append, List.take_of_length_le hle, List.drop_eq_nil_of_le hle]
+        simp
+      · rename_i h0 hgt
+        have hlt : n ≤ f.length := by omega
+        simp only [List.flatten_cons]
+        rw [List.take_append_of_le_length hlt, List.drop_append_of_le_length hlt]
+        simp
+
+theorem getNextMessageF_flatten (fs : List Bytes) :
+    (getNextMessageF fs).1 = (getNextMessage fs.flatten).1 ∧
+    (getNextMessageF fs).2.flatten = (getNextMessage fs.flatten).2 := by
+  unfold getNextMessageF getNextMessage
+  obtain ⟨h1, h2⟩ := readN_flatten fs 4
+  simp only
+  rw [h1]
+  split
+  · exact ⟨rfl, h2⟩
+  · cases hp : parseHeader (List.take 4 fs.flatten) with
+    | error e => exact ⟨rfl, h2⟩
+    | ok v =>
+      obtain ⟨size, t⟩ := v
+      obtain ⟨b1, b2⟩ := readN_flatten (readN fs 4).2 size
+      simp only
+      rw [b1, h2]
+      rw [h2] at b2
+      by_cases hc : (List.take size (List.drop 4 fs.flatten)).length < size
+      · rw [if_pos hc, if_pos hc]; exact ⟨rfl, b2⟩
+      · rw [if_neg hc, if_neg hc]; exact ⟨rfl, b2⟩
+
+theorem readStreamF_flatten : ∀ (fuel : Nat) (fs : List Bytes), readStreamF fuel fs = readStream fuel fs.flatten := by
+  intro fuel
+  induction fuel with
+  | zero => intro fs; rfl
+  | succ k ih =>
+    intro fs
+    obtain ⟨g1, g2⟩ := getNextMessageF_flatten fs
+    unfold readStreamF readStream
+    rcases hF : getNextMessageF fs with ⟨o, rest⟩
+    rcases hS : getNextMessage fs.flatten with ⟨o', rest'⟩
+    rw [hF, hS] at g1 g2
+    simp only at g1 g2
+    subst g1
+    cases o with
+    | msg m => simp only; rw [ih rest, g2]
+    | closed => rfl
+    | err => rfl
+
+
+theorem parseHeader_ok_length (h : Bytes) (v : Nat × Nat) (hp : parseHeader h = .ok v) : h.length = 4 := by
+  unfold parseHeader at hp
+  split at hp
+  · rfl
+  · cases hp
+
+theorem getNextMessage_msg_shrinks (s m rest : Bytes) (h : getNextMessage s = (.msg m, rest)) :
+    rest.length + 4 ≤ s.length := by
+  unfold getNextMessage at h
+  simp only at h
+  split at h
+  · cases h
+  · cases hp : parseHeader (List.take 4 s) with
+    | error e => rw [hp] at h; cases h
+    | ok v =>
+      rw [hp] at h
+      obtain ⟨size, t⟩ := v
+      have h4 := parseHeader_ok_length _ _ hp
+      simp only at h
+      split at h
+      · cases h
+      · simp only [Prod.mk.injEq] at h
+        obtain ⟨_, hr⟩ := h
+        subst hr
+        simp only [List.length_take] at h4
+        simp only [List.length_drop]
+        omega
+
+theorem readStream_fuel_enough : ∀ (fuel : Nat) (s : Bytes), s.length < fuel → (readStream fuel s).2 ≠ .fuel := by
+  intro fuel
+  induction fuel with
+  | zero => intro s h; omega
+  | succ k ih =>
+    intro s hl
+    unfold readStream
+    rcases hS : getNextMessage s with ⟨o, rest⟩
+    cases o with
+    | msg m =>
+      simp only
+      exact ih rest (by have := getNextMessage_msg_shrinks s m rest hS; omega)
+    | closed => simp
+    | err => simp
+
+theorem getNextMessage_frame (p : Packet) (hv : p.Valid) (rest : Bytes) :
+    getNextMessage (frameBytes p ++ rest) = (.msg (frameBytes p), rest) := by
+  obtain ⟨h1, h2, h3⟩ := hv
+  unfold getNextMessage
+  simp only
+  rw [frameBytes_take4, frameBytes_drop4, parseHeader_frame _ _ h1 h2 h3]
+  have hl : ¬ ((p.typ :: intToBytes p.body.length).length = 0) := by simp [intToBytes]
+  rw [if_neg hl]
+  simp only [List.take_left', List.drop_left']
+  have : ¬ (p.body.length < p.body.length) := by omega
+  rw [if_neg this]
+  rfl
+
+theorem readStream_frames (ps : List Packet) : ∀ (fuel : Nat), (∀ p ∈ ps, p.Valid) → ps.length < fuel →
+    readStream fuel (ps.flatMap frameBytes) = (ps.map frameBytes, .closed) := by
+  induction ps with
+  | nil =>
+    intro fuel _ hf
+    cases fuel with
+    | zero => omega
+    | succ k => simp [readStream, getNextMessage]
+  | cons p ps ih =>
+    intro fuel hv hf
+    cases fuel with
+    | zero => omega
+    | succ k =>
+      simp only [List.flatMap_cons, List.map_cons]
+      unfold readStream
+      rw [getNextMessage_frame p (hv p (by simp))]
+      simp only
+      rw [ih k (fun q hq => hv q (by simp [hq])) (by simp at hf; omega)]
+
+end Cell2v.Codec
